@@ -129,6 +129,16 @@ def typePatOf (name : Str) : Option TypePat :=
 
 def joinAll (sp : Span) (ops : List Span) : Span := ops.foldl Span.join sp
 
+/-- The optional comparison operator in front of a match pattern (`PrefixPattern::from_token`): consumed
+    when present, `==` otherwise. `t` is the token just peeked. -/
+def patPrefix (t : Option (Tok × Span)) (ps1 : PS σ) : PRes σ CmpOp :=
+  match t with
+  | some (tk, _) =>
+    (match cmpOfTok tk with
+     | some op => (match pNext T ps1 with | .error e => .error e | .ok (_, p) => .ok (op, p))
+     | none => .ok (.eq, ps1))
+  | none => .ok (.eq, ps1)
+
 mutual
 def parseExpr : Nat → PS σ → PRes σ Ast
   | 0, ps => pFail T ps
@@ -223,14 +233,7 @@ def parsePattern : Nat → PS σ → PRes σ Pat
     | .ok (t, ps1) =>
       let cmpCase (ps1 : PS σ) : PRes σ Pat :=
         -- optional comparison prefix, then a ConditionalOr
-        let pre : PRes σ CmpOp :=
-          match t with
-          | some (tk, _) =>
-            (match cmpOfTok tk with
-             | some op => (match pNext T ps1 with | .error e => .error e | .ok (_, p) => .ok (op, p))
-             | none => .ok (.eq, ps1))
-          | none => .ok (.eq, ps1)
-        match pre with
+        match patPrefix T t ps1 with
         | .error e => .error e
         | .ok (op, ps2) =>
           let opSp : Span := ⟨start, T.loc ps2.ts⟩
